@@ -56,8 +56,12 @@ def plan(tier: str, seed: int) -> list[dict]:
             add(opt, gen.task_desc(rng, "contmulti"), gen.config_dict(rng, opt, scale=rng.choice([1, 1.5]), plus=rng.choice([1, 3, 5, 7]), max_cycles=rng.choice([2, 3]), jit=rng.random() < 0.5), tag="cont")
             # long runs at the documented scale: rare branches, late cycles, slow drifts (4 per repetition)
             for _ in range(4):
-                add(opt, gen.task_desc(rng, rng.choice(["contmulti", "cont"]), dim=rng.choice([2, 3, 4])),
-                    gen.config_dict(rng, opt, scale=1, max_cycles=40, stop="cycles"), tag="long")
+                d = gen.task_desc(rng, rng.choice(["contmulti", "cont"]), dim=rng.choice([2, 3, 4]))
+                d["offset"] = rng.choice([0.0, 250.0, -1000.0, 1e6])
+                add(opt, d, gen.config_dict(rng, opt, scale=1, max_cycles=40, stop="cycles"), tag="long")
+            # many continuous variables (vectorised paths), a coordinate on a zero bound
+            add(opt, gen.task_desc(rng, rng.choice(["contmulti", "cont"]), dim=rng.choice([8, 10, 12]), regime=rng.choice(["zero_lb", "zero_ub", "mixed", "unit"])),
+                gen.config_dict(rng, opt, max_cycles=rng.choice([2, 3])), tag="cont")
             # the documented cycle budget and beyond (defects that only show in later cycles)
             add(opt, gen.task_desc(rng, rng.choice(["contmulti", "cont"])), gen.config_dict(rng, opt, max_cycles=rng.choice([8, 10, 12, 20]), stop="cycles"), tag="cont")
             # solver modes
